@@ -44,3 +44,111 @@ class HiddenNumberParams:
   ]
   total = True
   props = ["C09", "C18"]
+
+
+@contract(f"{E}::EcCurve.OnCurve")
+class OnCurve:
+  params = {"p": "point"}
+  self_fields = CURVE_FIELDS
+  requires = CURVE_REQ + ["wf_point(p)"]
+  returns = "bool"
+  ensures = [("C06", "result == (is_inf(p) or (p[1] * p[1] - (p[0] * p[0] * p[0] + self.a * p[0] + self.b)) % self.mod == 0)"),
+             ("C06", "result == ufb('on_curve', self.a, self.b, self.mod, p[0] is None, p[0], p[1])")]
+  defines = ["ufb('on_curve', self.a, self.b, self.mod, p[0] is None, p[0], p[1]) == "
+             "(is_inf(p) or (p[1] * p[1] - (p[0] * p[0] * p[0] + self.a * p[0] + self.b)) % self.mod == 0)"]
+  return_hints = [("C06", "implies(not is_inf(p), euclid(p[1] * p[1] - (p[0] * p[0] * p[0] + self.a * p[0] + self.b), "
+                          "self.mod, imod(0 - ((p[0] * p[0] + self.a) * p[0] + self.b - p[1] * p[1]), self.mod), "
+                          "0 - idiv((p[0] * p[0] + self.a) * p[0] + self.b - p[1] * p[1], self.mod) - "
+                          "(1 if imod((p[0] * p[0] + self.a) * p[0] + self.b - p[1] * p[1], self.mod) != 0 else 0)))")]
+  total = True
+  props = ["C06", "C18"]
+
+
+@contract(f"{E}::EcCurve.Multiply")
+class Multiply:
+  """Scalar multiplication: the double-and-add loop over Jacobian coordinates is covered by C11 (ring identities for the
+  formulas + bounded exhaustive on small curves).  Callers use the abstract group view: the result is a well-formed
+  point that is a function of (curve, p, n)."""
+  params = {"p": "point", "n": "int"}
+  self_fields = CURVE_FIELDS
+  returns = "point"
+  assumed = True
+  assumed_why = "group-law correctness of the Jacobian double-and-add is decided under C11 (ring mode + bounded tier)"
+  requires = ["wf_point(p)"]
+  ensures = ["wf_point(result)",
+             "is_inf(result) == ufb('ec_mul_is_inf', self.a, self.b, self.mod, p[0] is None, p[0], p[1], n)",
+             "implies(is_inf(p), is_inf(result))"]
+
+
+@contract(f"{E}::EcCurve.IsValidPublicKey")
+class IsValidPublicKey:
+  params = {"p": "point"}
+  self_fields = CURVE_FIELDS
+  requires = CURVE_REQ + ["wf_point(p)"]
+  returns = "bool"
+  # valid == on the curve, not infinity, in the subgroup (checked only when the cofactor is > 1), coordinates in range
+  ensures = [("C06", "result == (ufb('on_curve', self.a, self.b, self.mod, p[0] is None, p[0], p[1]) and not is_inf(p) "
+                     "and (self.h <= 1 or ufb('ec_mul_is_inf', self.a, self.b, self.mod, p[0] is None, p[0], p[1], self.n)) "
+                     "and 0 <= p[0] and p[0] < self.mod and 0 <= p[1] and p[1] < self.mod)"),
+             ("C06", "result == ufb('valid_key', self.a, self.b, self.mod, self.n, self.h, p[0] is None, p[0], p[1])")]
+  defines = ["ufb('valid_key', self.a, self.b, self.mod, self.n, self.h, p[0] is None, p[0], p[1]) == "
+             "(ufb('on_curve', self.a, self.b, self.mod, p[0] is None, p[0], p[1]) and not is_inf(p) "
+             "and (self.h <= 1 or ufb('ec_mul_is_inf', self.a, self.b, self.mod, p[0] is None, p[0], p[1], self.n)) "
+             "and 0 <= p[0] and p[0] < self.mod and 0 <= p[1] and p[1] < self.mod)"]
+  total = True
+  props = ["C06", "C18"]
+
+
+@contract(f"{E}::PublicPoint")
+class PublicPoint:
+  params = {"key": "ref:ECKeyInfo"}
+  returns = "tuple[int,int]"
+  ensures = [("C09", "result[0] == bval(key.x) and result[1] == bval(key.y)"), "result[0] >= 0 and result[1] >= 0"]
+  returns_expr = "(bval(key.x), bval(key.y))"
+  total = True
+  props = ["C09", "C18"]
+
+
+@contract(f"{E}::ECDSAValues")
+class ECDSAValues:
+  params = {"sig": "ref:ECDSASignatureInfo", "curve": "obj:paranoid_crypto/lib/ec_util.py::EcCurve"}
+  returns = "tuple[int,int,int]"
+  requires = ["curve.n >= 2", "curve.mod >= 3", "curve.h >= 1"]
+  # r, s are the big-endian values; z is the hash truncated to the order length (RFC 6979 2.4) with hlen = 8 * len(hash)
+  ensures = [("C09", "result[0] == bval(sig.r) and result[1] == bval(sig.s)"),
+             ("C09", "result[2] == idiv(bval(sig.message_hash), pow2(max(0, 8 * blen(sig.message_hash) - "
+                     "bit_length(curve.n)))) % curve.n")]
+  total = True
+  props = ["C09", "C18"]
+
+
+@contract(f"{E}::EcCurve.__fields__")
+class EcCurveFields:
+  """Field declaration for objects of type obj:...EcCurve created symbolically."""
+  self_fields = CURVE_FIELDS
+  assumed = True
+
+# abstract group view used by the discrete-log contracts: is_dlog(curve, d, P)  <=>  d * G == P on that curve
+macro("is_dlog", ["c", "d", "px", "py"], "ufb('is_dlog', c.a, c.b, c.mod, c.g[0], c.g[1], d, px, py)")
+
+
+@contract(f"{E}::EcCurve.ExtendedBatchDL")
+class ExtendedBatchDL:
+  params = {"points": "list[tuple[int,int]]"}
+  self_fields = CURVE_FIELDS
+  returns = "list[Optional[int]]"
+  assumed = True
+  assumed_why = ("baby-step/giant-step over the abstract group: search logic under C10/C02 (BatchDL contract), "
+                 "arithmetic under C11; bounded tier bounded/c10.py")
+  ensures = ["len(result) == len(points)",
+             "forall(k, 0, len(result), result[k] is None or is_dlog(self, result[k], points[k][0], points[k][1]))"]
+
+
+@contract(f"{E}::EcCurve.BatchDLOfDifferences")
+class BatchDLOfDifferences:
+  params = {"points": "list[tuple[int,int]]", "other_points": "opaque", "max_diff": "int"}
+  self_fields = CURVE_FIELDS
+  returns = "list[Optional[str]]"
+  assumed = True
+  assumed_why = "search logic under C10/C02 (bounded tier bounded/c10.py, bounded/c02.py)"
+  ensures = ["len(result) == len(points)"]
